@@ -7,6 +7,9 @@ import SaModel.Lemmas.C08Explore
 import SaModel.Lemmas.C08Loop
 import SaModel.Lemmas.C08NotWalkable
 import SaModel.Lemmas.C08SAgree
+import SaModel.Lemmas.C08GConv
+import SaModel.Lemmas.C08Class
+import SaModel.Lemmas.C08Local
 /-
 C08 — tracing yields the documented mapping; from_type and from_samples agree.
 Model: SaModel/Trace/{Tracer,FromSamples,FromType}.lean.  Documented mapping: SaModel/Trace/Mapping.lean (`Spec.mapping`,
@@ -14,7 +17,8 @@ Model: SaModel/Trace/{Tracer,FromSamples,FromType}.lean.  Documented mapping: Sa
 
 Proved for ALL inputs:
 * the overwrite rule on the tracer (`C08_overwrite_replaces`, `C08_overwrite_name_mismatch`, `C08_overwrite_unknown_path`)
-  and on the documented mapping (`C08_mapping_overwrite`); `C08_mapping_name`; `C08_options_local_*`;
+  and on the documented mapping (`C08_mapping_overwrite`); locality: `C08_overwrite_local` (a subtree without a node at
+  the path keeps its field), `C08_overwrite_at` (the node at the path becomes the overwrite), `C08_mapping_lookups`; `C08_mapping_name`; `C08_options_local_*`;
 * `explore_complete_spec`: one pass over any enum-free type from a fresh node is complete and its field is the
   documented mapping (error iff the type cannot be walked);
 * `C08_pass_invariant`, `C08_complete_iff`, `C08_loop`: the multi-pass loop for enums (after `k` passes the tracer is
@@ -23,6 +27,17 @@ Proved for ALL inputs:
   `C08_from_type_budget`, `C08_from_type_not_walkable`, `C08_from_type_recursive` (depth limit);
 * `C08_agree`: `fromSamples c o (covering ty) = fromType c o ty` for every walkable type with unique field names whose
   passes fit the budget (enums included).
+* `C08_agree_all`: `fromSamples c o xs = fromType c o ty` for EVERY covering collection `xs` (`Covers o ty xs`,
+  SaModel/Lemmas/C08Covers.lean: values of the type in any order, with any repetitions and any extra values, that
+  together exercise every variant, a `Some` of every `Option`, an element of every sequence / map) — same hypotheses as
+  `C08_agree`; `C08_sample_invariant` (the tracer after ANY values `xs` of the type is `sstate ty xs`);
+  `C08_covers_iff_complete` (`covers` ⇔ the tracer is the complete tracer), `C08_covering_covers` (the canonical list is
+  covering);
+  `C08_agree_map_as_struct_false`, `C08_agree_guess_dates_needed`: the two documented exclusions are real.
+* `C08_from_type_class`, `C08_agree_all_class`: for types that can be walked the agreement includes the error CLASS
+  (`AgreeC`, table `SameClass`, SaModel/Lemmas/C08Class.lean: budget, unknown overwrite path, wrong overwrite name,
+  null-only field, enum without data, more than 128 variants, nullable root, root not a struct);
+  `C08_not_walkable_budget_first`: for types that cannot be walked the class is NOT fixed (the budget error can come first).
 Kept as a kernel-evaluated sanity table: `C08_from_type_and_agree_on_zoo` (16 type descriptions × 10 option settings).
 -/
 namespace SaModel.Props.C08
@@ -175,6 +190,36 @@ theorem C08_mapping_overwrite (o : Options) : ∀ (ty : Ty) (name path : String)
   | .bytes, _, _, _, _, _, h | .vec _, _, _, _, _, _, h | .tuple _, _, _, _, _, _, h | .tupleStruct _ _, _, _, _, _, _, h
   | .map _ _, _, _, _, _, _, h | .struct _ _, _, _, _, _, _, h | .enum _ _, _, _, _, _, _, h => by
     simp only [mapping, overwritten, h]
+
+/-- `C08_overwrite_local`: an overwrite replaces EXACTLY the field at its path.  Registering `overwrite(pth, f)` does not
+change the documented field of any subtree that has no node at that path (`"$." ++ pth ∉ tyPaths path ty`: siblings,
+cousins, everything that is not an ancestor of the node) — for every type, position and option record … -/
+theorem C08_overwrite_local (o : Options) (pth : String) (f : Field) (ty : Ty) (name path : String) (nl : Bool)
+    (hk : "$." ++ pth ∉ tyPaths path ty) :
+    mapping (o.overwrite pth f) name path nl ty = mapping o name path nl ty :=
+  mapping_overwrite_foreign o pth f ty name path nl hk
+
+/-- … while the node AT that path becomes the overwrite field as given (or the name error), whatever was registered
+before (`TracingOptions::overwrite` replaces an earlier entry for the same path); an ancestor is rebuilt from its
+children, of which only the one on the way to the path changes -/
+theorem C08_overwrite_at (o : Options) (pth : String) (f : Field) (ty : Ty) (name : String) (nl : Bool) :
+    mapping (o.overwrite pth f) name ("$." ++ pth) nl ty =
+      if f.name = name then .ok f else fail "overwrite with a different name" :=
+  C08_mapping_overwrite (o.overwrite pth f) ty name ("$." ++ pth) nl ("$." ++ pth) f (by
+    rw [overwrite_find]; simp only [if_true])
+
+/-- the mapping of a type reads the overwrite table only at the paths of its own tree -/
+theorem C08_mapping_lookups (o : Options) (ows' : List (String × Field)) (ty : Ty) (name path : String) (nl : Bool)
+    (h : ∀ q ∈ tyPaths path ty, ows'.find? (fun kv => kv.1 = q) = o.overwrites.find? (fun kv => kv.1 = q)) :
+    mapping { o with overwrites := ows' } name path nl ty = mapping o name path nl ty :=
+  mapping_lookups o ows' ty name path nl h
+
+/-- non-vacuity: in `struct S { a: Vec<String>, e: enum E { A(i32), B { x: bool } } }` the path `$.e.B.x` is not a path
+of the subtree `a` nor of the variant `A`, and it is a path of `e` -/
+example :
+    let e : Ty := .enum "E" (.newtype "A" (.int .i32) (.struct "B" (.cons "x" .bool .nil) .nil))
+    "$." ++ "e.B.x" ∉ tyPaths "$.a" (.vec .string) ∧ "$." ++ "e.B.x" ∉ tyPaths "$.e.A" (.int .i32) ∧
+      "$." ++ "e.B.x" ∈ tyPaths "$.e" e := by decide
 
 /-! ### every option changes precisely its aspect -/
 
@@ -430,6 +475,153 @@ example :
       (.cons "m" (.map .string (.struct "I" (.cons "x" .f32 .nil))) (.cons "deep" tDeep .nil))))
     walkable o "$" ty = true ∧ uniqueNames ty = true ∧ smallEnums ty = true ∧ passes ty = 10 ∧ width ty = 18 ∧
       (fromType .fixed o ty).isOk = true := by
+  decide +kernel
+
+/-! ### `from_samples` on ANY covering collection = `from_type` -/
+
+/-- `C08_sample_invariant`: the state of `from_samples` after ANY values of the type.  `sstate o n p nl ty xs`
+(SaModel/Lemmas/C08GState.lean) is written down from the type and the values found at each position (the payloads of the
+`Some`s, all elements of all sequences, the i-th components, the values of field `f`, the payloads of the samples of
+variant `i`): a position that has seen no value is `unknown`, an `Option` position is nullable as soon as it has seen a
+value, a union node has a slot for every variant up to the last one that occurred.  Absorbing any value `x` of the type
+(`hasTy o x ty`) into the tracer of `xs` gives the tracer of `xs ++ [x]` — no condition on `xs`. -/
+theorem C08_sample_invariant (c : Code) (o : Options) (ty : Ty) (n p : String) (nl : Bool) (xs : List SVal) (x : SVal)
+    (hw : walkable o p ty = true) (hu : uniqueNames ty = true) (hs : smallEnums ty = true) (hx : hasTy o x ty = true) :
+    absorb c o (sstate o n p nl ty xs) x = .ok (sstate o n p nl ty (xs ++ [x])) :=
+  absorb_gen c o ty n p nl xs x hw hu hs hx
+
+/-- `C08_agree_all`: for EVERY type description that can be walked, with unique field names (enums with all four variant
+kinds and nested enums included), all options whose budget covers the passes the type needs, and EVERY covering sample
+collection `xs` — `Covers o ty xs` (SaModel/Lemmas/C08Covers.lean): every sample is a value of the type (`hasTy`: the
+serde calls a derived `Serialize` makes, struct fields in declaration order, variant index and name of the declaration,
+`None` and `Some`, sequences and maps of any length; strings that `guess_dates` would read as dates are not samples of
+`String`), and together they cover it (`covers`, recursive over the type: a value at every leaf; the `Some` payloads cover
+`T` of `Option<T>`; all elements together cover `T` of `Vec<T>`; all keys / values cover `K` / `V`; every tuple position
+and struct field is covered by the values found there; EVERY variant of an enum occurs and its payloads cover its
+payload type) — in ANY order, with ANY repetitions and ANY extra values of the type (`None`, empty collections, further
+variants): `from_samples` gives exactly what `from_type` gives — the same fields or the same error (null-only field,
+overwrite errors, root not a struct, more than 128 variants).  Both code versions.
+Hypotheses that remain, all necessary: `walkable` (depth limit; a map under `map_as_struct`, the default:
+`C08_agree_map_as_struct_false`; empty enum), `uniqueNames` (`from_samples` finds a field by name, a derive by position),
+`smallEnums` (≤ 2^20 variants, the allocation bound of the model of `ensure_variant`, finding #29), the budget
+(`from_samples` has none), and inside `Covers` the `guess_dates` clause (`C08_agree_guess_dates_needed`). -/
+theorem C08_agree_all (c : Code) (o : Options) (ty : Ty) (xs : List SVal) (hw : walkable o "$" ty = true)
+    (hu : uniqueNames ty = true) (hs : smallEnums ty = true) (hb : passes ty ≤ o.from_type_budget)
+    (hc : Covers o ty xs) : fromSamples c o xs = fromType c o ty :=
+  agree_covers c o ty xs hw hu hs hb hc
+
+/-- `covers` is EXACTLY what the tracer needs to see the whole type: the tracer of the values `xs` is, up to the sample
+counters of struct nodes, the complete tracer `done` of `from_type` if and only if `covers ty xs` — a collection that
+misses a variant, a `Some`, an element, … leaves an `unknown` node or an `absent` variant slot behind -/
+theorem C08_covers_iff_complete (o : Options) (ty : Ty) (n p : String) (nl : Bool) (xs : List SVal) :
+    covers ty xs = true ↔ erase (sstate o n p nl ty xs) = done o n p nl ty :=
+  covers_iff_done o ty n p nl xs
+
+/-- the canonical list `covering ty` of `C08_agree` is a covering collection, for every type the theorems are about:
+`Covers` is satisfiable for all of them and `C08_agree` is the instance `xs := covering ty` of `C08_agree_all` -/
+theorem C08_covering_covers (c : Code) (o : Options) (ty : Ty) (hw : walkable o "$" ty = true)
+    (hu : uniqueNames ty = true) (hs : smallEnums ty = true) : Covers o ty (covering ty) :=
+  covering_Covers c o ty hw hu hs
+
+/-- a record type with an `Option<Vec<String>>`, a tuple, a map (traced as a map) and an enum with the four variant kinds
+whose newtype variant holds another `Option` -/
+def tCov : Ty :=
+  .struct "S" (.cons "a" (.option (.vec .string)) (.cons "t" (.tuple (.cons (.int .u8) (.cons .bool .nil)))
+    (.cons "m" (.map .string (.int .i32))
+      (.cons "e" (.enum "E" (.unit "U" (.newtype "N" (.option .f32) (.tuple "T" (.cons .bool .nil)
+        (.struct "R" (.cons "x" (.option (.int .i64)) .nil) .nil))))) .nil))))
+
+def tCovSample (a m e : SVal) : SVal :=
+  .record "S" (.cons "a" 0 a (.cons "t" 0 (.tuple (.cons (.int .u8 7) (.cons (.bool false) .nil)))
+    (.cons "m" 0 m (.cons "e" 0 e .nil))))
+
+/-- six samples, not in declaration order of the variants, with a `None`, an empty sequence, an empty map, a map with two
+entries, a repeated variant, and `Some` / elements / entries spread over different samples -/
+def tCovSamples : List SVal :=
+  [ tCovSample .none (.map .nil) (.structVariant "E" 3 "R" (.cons "x" 0 .none .nil)),
+    tCovSample (.some (.seq .nil)) (.map (.cons (.str "k") (.int .i32 1) (.cons (.str "l") (.int .i32 2) .nil)))
+      (.newtypeVariant "E" 1 "N" .none),
+    tCovSample (.some (.seq (.cons (.str "v") (.cons (.str "w") .nil)))) (.map .nil) (.unitVariant "E" 0 "U"),
+    tCovSample .none (.map .nil) (.newtypeVariant "E" 1 "N" (.some (.f32 0))),
+    tCovSample .none (.map .nil) (.structVariant "E" 3 "R" (.cons "x" 0 (.some (.int .i64 (-5))) .nil)),
+    tCovSample .none (.map .nil) (.tupleVariant "E" 2 "T" (.cons (.bool true) .nil)) ]
+
+/-- non-vacuity of `C08_agree_all`: the hypotheses hold for `tCovSamples` — which is neither the canonical list nor a
+permutation of it — both tracers succeed, and dropping the last sample (the only one of variant `T`) loses coverage -/
+example :
+    let o : Options := { map_as_struct := false, allow_null_fields := true }
+    walkable o "$" tCov = true ∧ uniqueNames tCov = true ∧ smallEnums tCov = true ∧ passes tCov ≤ o.from_type_budget ∧
+      Covers o tCov tCovSamples ∧ tCovSamples ≠ covering tCov ∧ (fromType .fixed o tCov).isOk = true ∧
+      ¬ Covers o tCov tCovSamples.dropLast := by
+  decide +kernel
+
+/-- the exclusion of maps under `map_as_struct` (the default) is real: `from_type` refuses the type, `from_samples` traces
+the map as a struct whose fields are the KEYS of the samples — the two tracers do not agree there, as documented -/
+theorem C08_agree_map_as_struct_false :
+    let ty : Ty := .struct "S" (.cons "m" (.map .string (.int .i32)) .nil)
+    let xs : List SVal := [.record "S" (.cons "m" 0 (.map (.cons (.str "k") (.int .i32 1) .nil)) .nil)]
+    Covers {} ty xs ∧ (fromType .fixed {} ty).isOk = false ∧ (fromSamples .fixed {} xs).isOk = true := by
+  decide +kernel
+
+/-- the `guess_dates` clause of `hasTy` is needed: a string sample that looks like a date is traced as `Date32`, which
+`from_type` cannot know -/
+theorem C08_agree_guess_dates_needed :
+    let o : Options := { guess_dates := true }
+    let ty : Ty := .struct "S" (.cons "d" .string .nil)
+    let xs : List SVal := [.record "S" (.cons "d" 0 (.str "2020-12-24") .nil)]
+    covers ty xs = true ∧ ¬ Covers o ty xs ∧ Covers {} ty xs ∧ (fromSamples .fixed o xs).isOk = true ∧
+      fromSamples .fixed o xs ≠ fromType .fixed o ty := by
+  decide +kernel
+
+/-! ### agreement including the error class -/
+
+/-- `C08_from_type_class`: for EVERY type description that can be walked and ALL options, `from_type` is the documented
+result INCLUDING the error class (`AgreeC`: the same fields, or the crate's message and the documented error are a row of
+the table `SameClass`): budget too small ↔ "Could not determine schema from the type after … iterations"; unknown
+overwrite path ↔ "Overwritten fields could not be found"; overwrite with a different name ↔ "Invalid name for overwritten
+field"; null field ↔ "Encountered null only field"; enum without data ↔ "Encountered enums without data"; more than 128
+variants ↔ the `i8` conversion error; nullable root ↔ "The root type cannot be nullable"; root not a struct ↔ "No
+records found …" / "Schema tracing is not directly supported for the root data type".  The ORDER in which the
+documented result checks (budget, overwrite paths, then the fields left to right, then the root) is the crate's. -/
+theorem C08_from_type_class (c : Code) (o : Options) (ty : Ty) (hw : walkable o "$" ty = true) :
+    AgreeC (fromType c o ty) (fromTypeSpec o ty) :=
+  fromType_walkable_c c o ty hw
+
+/-- `C08_agree_all_class`: on every covering collection `from_samples` is the documented result of `from_type`, error
+class included (hypotheses as `C08_agree_all`) -/
+theorem C08_agree_all_class (c : Code) (o : Options) (ty : Ty) (xs : List SVal) (hw : walkable o "$" ty = true)
+    (hu : uniqueNames ty = true) (hs : smallEnums ty = true) (hb : passes ty ≤ o.from_type_budget)
+    (hc : Covers o ty xs) : AgreeC (fromSamples c o xs) (fromTypeSpec o ty) := by
+  rw [C08_agree_all c o ty xs hw hu hs hb hc]; exact C08_from_type_class c o ty hw
+
+/-- non-vacuity: one type per error class of `to_field` / `to_schema` / the overwrite rule, each reached by `from_type`
+with the crate's message -/
+example :
+    let sU : Ty := .struct "S" (.cons "u" .unit .nil)
+    let sE : Ty := .struct "S" (.cons "e" (.enum "E" (.unit "A" (.unit "B" .nil))) .nil)
+    let f : Field := .mk "x" .int8 false []
+    walkable {} "$" sU = true ∧ fromType .fixed {} sU = fail "Encountered null only field" ∧
+    fromType .fixed {} sE = fail "Encountered enums without data" ∧
+    fromType .fixed {} (.option sU) = fail "Encountered null only field" ∧
+    fromType .fixed { allow_null_fields := true } (.option sU) = fail "The root type cannot be nullable" ∧
+    fromType .fixed {} (.int .i8) = fail "Schema tracing is not directly supported for the root data type" ∧
+    fromType .fixed { allow_null_fields := true } .unit = fail "The root type cannot be nullable" ∧
+    fromType .fixed { overwrites := [("$.u", f)] } sU = fail "Invalid name for overwritten field" ∧
+    fromType .fixed { overwrites := [("$.v", f)] } sU = fail "Overwritten fields could not be found" ∧
+    fromType .fixed { from_type_budget := 1, allow_null_fields := true } sE =
+      fail "Could not determine schema from the type after {budget} iterations" := by
+  decide +kernel
+
+/-- for a type that CANNOT be walked the class of the error is not fixed: `enum E { A(i32), B(HashMap<..>) }` under
+`map_as_struct` with a budget of one pass fails with the budget error (pass 1 explores `A`, the loop gives up before it
+meets the map), with a larger budget with the map error; the documented result says "not traceable" for both.  This is
+why `C08_from_type` compares only ok / error for such types -/
+theorem C08_not_walkable_budget_first :
+    let ty : Ty := .struct "S" (.cons "e" (.enum "E" (.newtype "A" (.int .i32) (.newtype "B" (.map .string .bool) .nil))) .nil)
+    walkable {} "$" ty = false ∧
+    fromType .fixed { from_type_budget := 1 } ty = fail "Could not determine schema from the type after {budget} iterations" ∧
+    fromType .fixed { from_type_budget := 2 } ty = fail "Cannot trace maps as structs with `from_type`" ∧
+    fromTypeSpec { from_type_budget := 1 } ty = fail "not traceable from the type" := by
   decide +kernel
 
 /-! ### the zoo: `from_type` = documented mapping = `from_samples` on covering samples (kernel evaluation) -/
